@@ -17,7 +17,7 @@ import (
 	"verif/vsess"
 )
 
-var kickPlans = []string{"leave-answered", "leave-unanswered-then-cancelled", "kicked-again-then-presence"}
+var kickPlans = []string{"leave-answered", "leave-unanswered-then-cancelled", "kicked-again-then-presence", "first-join-refused-then-rejoin", "first-join-cancelled-then-rejoin"}
 
 func sentinelMsg(id string) string {
 	return fmt.Sprintf(`<message id='%s' from='someone@example.net/x' to='me@example.net/res'><body>x</body></message>`, id)
@@ -35,6 +35,8 @@ func kickBody(c *nd.Ctx) nd.Result {
 	var setupErr, joinErr, rejoinErr, leaveErr error
 	leaveStarted, leaveReturned, leaveCancelled := false, false, false
 	userPresences, userBefore, userAfter := 0, -1, -1
+	firstFailed, rejoined := false, false
+	var cancelFirst context.CancelFunc
 	me := room.String()
 	if nick == "new-nick-option" {
 		me = "room@conf.example.net/me2"
@@ -61,6 +63,11 @@ func kickBody(c *nd.Ctx) nd.Result {
 				}
 				answered[id] = true
 				switch {
+				case el.Attr("type") == "" && len(answered) == 1 && plan == "first-join-refused-then-rejoin":
+					env.PeerWrite(fmt.Sprintf(`<presence from='%s' type='error' id='%s'><error type='cancel'><conflict xmlns='urn:ietf:params:xml:ns:xmpp-stanzas'/></error></presence>`, el.Attr("to"), id))
+				case el.Attr("type") == "" && len(answered) == 1 && plan == "first-join-cancelled-then-rejoin":
+					// no answer: the application gives up
+					cancelFirst()
 				case el.Attr("type") == "":
 					env.PeerWrite(selfPresence("", el.Attr("to"), ""))
 				case el.Attr("type") == "unavailable" && plan == "leave-answered":
@@ -70,6 +77,9 @@ func kickBody(c *nd.Ctx) nd.Result {
 		}
 		env.Serve(mux.New(ns, muc.HandleClient(client), mux.MessageFunc("", xml.Name{}, sentinel), mux.MessageFunc(stanza.NormalMessage, xml.Name{}, sentinel)))
 		ctx := context.Background()
+		ctxFirst, cf := context.WithCancel(ctx)
+		cancelFirst = cf
+		defer cf()
 		ctxL, cancelL := context.WithCancel(ctx)
 		defer cancelL()
 		vs.GoNamed("canceller", false, func() {
@@ -86,7 +96,29 @@ func kickBody(c *nd.Ctx) nd.Result {
 		// set-up: join, then the room removes us
 		vs.SetCanonical(true)
 		var ch *muc.Channel
-		ch, joinErr = client.Join(ctx, room, env.S)
+		ch, joinErr = client.Join(ctxFirst, room, env.S)
+		if plan == "first-join-refused-then-rejoin" || plan == "first-join-cancelled-then-rejoin" {
+			// the first join fails (refused by the room / given up); a later join
+			// of the same channel must work like a first one
+			firstFailed = joinErr != nil
+			joinErr = nil
+			vs.SetCanonical(quickTier)
+			if firstFailed && ch != nil {
+				switch nick {
+				case "no-option":
+					rejoinErr = ch.Join(ctx)
+				case "same-nick-option":
+					rejoinErr = ch.Join(ctx, muc.Nick("me"))
+				default:
+					rejoinErr = ch.Join(ctx, muc.Nick("me2"))
+				}
+				rejoined = true
+			}
+			leaveStarted = true
+			env.PeerWrite(`</stream:stream>`)
+			vsess.Wait("serve-done", func() bool { return env.ServeDone })
+			return
+		}
 		if joinErr != nil {
 			vs.SetCanonical(quickTier)
 			leaveStarted = true
@@ -140,12 +172,24 @@ func kickBody(c *nd.Ctx) nd.Result {
 	case "panic":
 		return fail(out.Panic.Sig(), "panic in thread %s: %s\n%s", out.PanicIn, out.Panic.Value, out.Panic.Stack)
 	case "deadlock":
+		if firstFailed && !rejoined {
+			return fail("rejoin-after-failed-join-never-returns:"+nick, "blocked threads: %v", out.Blocked)
+		}
 		return fail("deadlock:"+nick, "blocked threads: %v", out.Blocked)
 	case "horizon":
 		return fail("does-not-terminate", "blocked: %v", out.Blocked)
 	}
 	if joinErr != nil {
 		return fail("setup-failed", "join %v", joinErr)
+	}
+	if plan == "first-join-refused-then-rejoin" || plan == "first-join-cancelled-then-rejoin" {
+		if !firstFailed || !rejoined {
+			return fail("setup-failed", "the first join did not fail as scripted (failed=%v)", firstFailed)
+		}
+		if rejoinErr != nil {
+			return fail("rejoin-after-failed-join-fails-although-self-presence-arrived:"+nick, "Join returned %v", rejoinErr)
+		}
+		return res
 	}
 	if rejoinErr != nil {
 		return fail("rejoin-fails-although-self-presence-arrived:"+nick, "Join returned %v", rejoinErr)
